@@ -269,14 +269,21 @@ def braced(src, name, head_regex, within=None):
     return Slice(name, src, s, be)
 
 
-def switch_clause(src, name, func_slice, case_label, stop_labels=None):
+def switch_clause(src, name, func_slice, case_label, stop_labels=None, occurrence=None):
     """Inside func_slice, the text from `case <label>:` (including directly stacked case
     labels *before* it) up to the next `case`/`default` at the same brace depth that
     follows a terminating `break;`/`return`.  Returns Slice of the statements."""
     text = src.text
     lo, hi = func_slice.start, func_slice.end
-    s, e = src.find_unique(r"\bcase\s+" + re.escape(case_label) + r"\s*:", lo, hi,
-                           what=f"{name}: case {case_label}")
+    if occurrence is None:
+        s, e = src.find_unique(r"\bcase\s+" + re.escape(case_label) + r"\s*:", lo, hi,
+                               what=f"{name}: case {case_label}")
+    else:
+        # the label also occurs in a nested switch: take the occurrence-th one (0 = the outer clause, which comes first)
+        ms = [m for m in re.finditer(r"\bcase\s+" + re.escape(case_label) + r"\s*:", text[lo:hi]) if src.mask[lo + m.start()] == "c"]
+        if len(ms) <= occurrence:
+            raise ExtractionBroken(f"{src.relpath}: {name}: case {case_label} occurrence {occurrence} not found")
+        s, e = lo + ms[occurrence].start(), lo + ms[occurrence].end()
     # extend backwards over stacked labels
     start = s
     while True:
